@@ -59,6 +59,7 @@ type childConf struct {
 	Avoid      []string         `json:"avoid,omitempty"`       // command names left out (they killed an earlier child)
 	AvoidKinds []string         `json:"avoid_kinds,omitempty"` // mutation kinds left out
 	Dict       Dictionary       `json:"dict"`
+	Delims     []string         `json:"delims,omitempty"`
 	HoldS      int              `json:"hold_s,omitempty"` // replay: keep the server running that long before the final canaries (periodic loops: metrics every 10 s)
 	BadIndex   int              `json:"bad_index,omitempty"`
 }
@@ -550,6 +551,8 @@ func (s *childState) runSingleServerModes() error {
 	case "batch":
 		s.runBatchAbort(h)
 		canary.probe("after-batch")
+		s.runBatchRound(h)
+		canary.probe("after-batch-round")
 		s.runDirected(h, canary)
 		return nil
 	}
@@ -668,6 +671,8 @@ func (s *childState) fuzzClient(h *Host, ci int, names []string, canary *canaryP
 	// systematic phase first (the same list in every client, each takes its share)
 	pg := NewGen(newRand(conf.Seed, int64(conf.Index*1000+900)), []string{"fz", "one"})
 	pg.AvoidKinds = s.avoidKinds()
+	pg.Delims = conf.Delims
+	g.Delims = conf.Delims
 	pre := pg.PrePhase(conf.Names, conf.Dict.Strict, s.avoided)
 	var mine []GenCmd
 	for i, c := range pre {
@@ -1003,5 +1008,243 @@ func (s *childState) runDirected(h *Host, canary *canaryProbe) {
 		}
 		s.count("directed_scenarios", 1)
 		canary.probe("after directed scenario " + sc.name)
+	}
+}
+
+// runBatchRound: several connections send, back to back (pipelines of 2-4),
+// streams of unique-valued SETs, INCRs of an own counter, two SETs of the same
+// key in a row, and now and then a batchable command that fails at apply
+// (SETEX k notanumber v, HMSET with an over-long field), all into ONE
+// partition, so that apply rounds mix batchable writes, intermediate commits
+// and aborts. Afterwards, for EVERY command: answered with an error => its
+// effect is absent; answered OK => present. (On the unchanged tree the listed
+// batch-abort finding makes innocent commands receive a foreign error, but
+// they are then not applied either, so this oracle is sound there.)
+func (s *childState) runBatchRound(h *Host) {
+	groups := s.conf.BatchN / 2
+	if groups < 60 {
+		groups = 60
+	}
+	const conns = 8
+	type sent struct {
+		name, key, val string
+		reply          string
+		unknown        bool // propose timeout / connection error: outcome not known
+	}
+	all := make([][]sent, conns)
+	var wg sync.WaitGroup
+	for ci := 0; ci < conns; ci++ {
+		wg.Add(1)
+		go func(ci int) {
+			defer wg.Done()
+			r := newRand(s.conf.Seed, int64(770+ci))
+			conn, err := Dial(h.Addr(), 30*time.Second)
+			if err != nil {
+				return
+			}
+			defer func() { conn.Close() }()
+			seq := 0
+			cnt := fmt.Sprintf("one:br:c%d-cnt", ci)
+			for g := 0; g < groups; g++ {
+				var grp []sent
+				n := 2 + r.Intn(3)
+				for len(grp) < n {
+					seq++
+					k := fmt.Sprintf("one:br:c%d-k%d", ci, seq)
+					v := fmt.Sprintf("v%d-%d", ci, seq)
+					switch x := r.Intn(20); {
+					case x < 8:
+						grp = append(grp, sent{name: "set", key: k, val: v})
+					case x < 13:
+						grp = append(grp, sent{name: "incr", key: cnt})
+					case x < 16: // the same key twice in a row: the second forces an intermediate commit
+						grp = append(grp, sent{name: "set", key: k, val: v}, sent{name: "set", key: k, val: v + "b"})
+					case x < 18:
+						grp = append(grp, sent{name: "setex-bad", key: k, val: v})
+					case x < 19:
+						grp = append(grp, sent{name: "hmset-bad", key: k})
+					default:
+						grp = append(grp, sent{name: "del", key: fmt.Sprintf("one:br:c%d-k%d", ci, 1+r.Intn(seq))})
+					}
+				}
+				allSet := true
+				for _, c := range grp {
+					if c.name != "set" {
+						allSet = false
+					}
+				}
+				if allSet {
+					grp = append(grp, sent{name: "incr", key: cnt}) // a pipeline of plain SETs only would be folded into PLSET
+				}
+				var buf []byte
+				for _, c := range grp {
+					switch c.name {
+					case "set":
+						buf = append(buf, EncodeCommand(B("SET", c.key, c.val))...)
+					case "incr":
+						buf = append(buf, EncodeCommand(B("INCR", c.key))...)
+					case "setex-bad":
+						buf = append(buf, EncodeCommand(B("SETEX", c.key, "notanumber", c.val))...)
+					case "hmset-bad":
+						buf = append(buf, EncodeCommand(B("HMSET", c.key, strings.Repeat("f", 70000), "v"))...)
+					case "del":
+						buf = append(buf, EncodeCommand(B("DEL", c.key))...)
+					}
+				}
+				if err := conn.SendRaw(buf); err != nil {
+					return
+				}
+				broken := false
+				for i := range grp {
+					if broken {
+						grp[i].unknown = true
+						continue
+					}
+					rp, err := conn.Read()
+					if err != nil {
+						grp[i].unknown = true
+						broken = true
+						continue
+					}
+					grp[i].reply = rp.String()
+					if rp.IsErr() && isTimeoutClass(string(rp.Str)) {
+						grp[i].unknown = true
+					}
+				}
+				all[ci] = append(all[ci], grp...)
+				if broken {
+					conn.Close()
+					if conn, err = Dial(h.Addr(), 30*time.Second); err != nil {
+						return
+					}
+				}
+			}
+		}(ci)
+	}
+	wg.Wait()
+	conn, err := Dial(h.Addr(), 30*time.Second)
+	if err != nil {
+		s.inconclusive("batch-round: " + err.Error())
+		return
+	}
+	defer conn.Close()
+	fired := map[string]bool{}
+	violate := func(cmd, msg string, w interface{}) {
+		sig := "error-left-effect/batch-round/" + cmd
+		s.count("batch_round_violations", 1)
+		if !fired[sig] {
+			fired[sig] = true
+			s.violation(sig, msg, w)
+		}
+	}
+	for ci := range all {
+		// per key: the ordered writes of this connection (keys are private to a connection)
+		type write struct {
+			idx     int
+			val     string // "" = delete
+			ok, unk bool
+			reply   string
+		}
+		perKey := map[string][]write{}
+		var order []string
+		incrOK, incrErr, incrUnk := int64(0), int64(0), false
+		firstIncrErr := ""
+		for i, c := range all[ci] {
+			s.count("batch_round_commands", 1)
+			isErr := strings.HasPrefix(c.reply, "-")
+			if isErr && !c.unknown {
+				s.count("batch_round_error_replies", 1)
+			}
+			switch c.name {
+			case "incr":
+				switch {
+				case c.unknown:
+					incrUnk = true
+				case isErr:
+					incrErr++
+					if firstIncrErr == "" {
+						firstIncrErr = c.reply
+					}
+				default:
+					incrOK++
+				}
+			case "set", "del", "setex-bad":
+				if _, ok := perKey[c.key]; !ok {
+					order = append(order, c.key)
+				}
+				v := c.val
+				if c.name == "del" {
+					v = ""
+				}
+				perKey[c.key] = append(perKey[c.key], write{i, v, !isErr && !c.unknown, c.unknown, c.reply})
+			}
+		}
+		cnt := fmt.Sprintf("one:br:c%d-cnt", ci)
+		if !incrUnk {
+			rp, err := conn.DoS("GET", cnt)
+			if err == nil {
+				got := int64(0)
+				if !rp.IsNil() {
+					fmt.Sscanf(string(rp.Str), "%d", &got)
+				}
+				s.count("batch_round_counters_checked", 1)
+				if got != incrOK {
+					violate("incr", fmt.Sprintf("connection %d: %d INCR %s were answered OK and %d with an error (first: %s), but the counter is %d: an INCR answered with an error was applied (or an acknowledged one lost)", ci, incrOK, cnt, incrErr, cut(firstIncrErr, 80), got),
+						map[string]interface{}{"scenario": "8 connections, pipelines of 2-4 of SET / INCR / SET same key twice / SETEX k notanumber v / over-long HMSET / DEL into one partition", "counter": cnt, "incr_ok": incrOK, "incr_error": incrErr, "counter_value": got, "first_error_reply": firstIncrErr})
+				}
+			}
+		}
+		for _, k := range order {
+			ws := perKey[k]
+			unk := false
+			for _, w := range ws {
+				if w.unk {
+					unk = true
+				}
+			}
+			if unk {
+				continue
+			}
+			want := "" // value of the last write answered OK
+			for _, w := range ws {
+				if w.ok {
+					want = w.val
+				}
+			}
+			rp, err := conn.DoS("GET", k)
+			if err != nil {
+				s.inconclusive("batch-round: " + err.Error())
+				return
+			}
+			got := ""
+			if !rp.IsNil() {
+				got = string(rp.Str)
+			}
+			s.count("batch_round_keys_checked", 1)
+			if got == want {
+				continue
+			}
+			// whose value is it?
+			culprit, reply := "set", ""
+			for _, w := range ws {
+				if w.val == got && got != "" && !w.ok {
+					reply = w.reply
+				}
+			}
+			var hist []string
+			for _, w := range ws {
+				op := "SET " + k + " " + w.val
+				if w.val == "" {
+					op = "DEL " + k
+				}
+				hist = append(hist, op+" -> "+cut(w.reply, 70))
+			}
+			what := fmt.Sprintf("key %s holds %q, the last write answered OK gives %q", k, got, want)
+			if reply != "" {
+				what = fmt.Sprintf("SET %s %s was answered %s but the value is stored", k, got, cut(reply, 80))
+			}
+			violate(culprit, fmt.Sprintf("connection %d: %s (writes of this key in order: %v)", ci, what, hist),
+				map[string]interface{}{"scenario": "8 connections, pipelines of 2-4 of SET / INCR / SET same key twice / SETEX k notanumber v / over-long HMSET / DEL into one partition", "key": k, "stored": got, "expected": want, "writes": hist})
+		}
 	}
 }
